@@ -2,11 +2,14 @@ package thriftproto
 
 import (
 	"context"
+	"encoding/binary"
+	"io"
 	"sync"
 
 	"git.apache.org/thrift.git/lib/go/thrift"
 	"github.com/henrylee2cn/erpc/v6"
 	"github.com/henrylee2cn/erpc/v6/codec"
+	"github.com/henrylee2cn/erpc/v6/socket"
 	"github.com/henrylee2cn/erpc/v6/utils"
 	"github.com/henrylee2cn/goutil"
 )
@@ -41,6 +44,7 @@ func NewBinaryProtoFunc() erpc.ProtoFunc {
 		}
 		p.tProtocol = thrift.NewTHeaderProtocol(&BaseTTransport{
 			ReadWriteCounter: p.rwCounter,
+			frames:           new(frameReader),
 		})
 		p.wProtocol = thrift.NewTHeaderProtocol(&BaseTTransport{
 			ReadWriteCounter: p.rwCounter,
@@ -208,6 +212,69 @@ func readMessageBegin(tProtocol thrift.TProtocol, m erpc.Message) error {
 // BaseTTransport the base thrift transport
 type BaseTTransport struct {
 	*utils.ReadWriteCounter
+	// frames, if set, makes Read follow the framing of the incoming stream
+	frames *frameReader
+}
+
+// frameReader hands the incoming stream to the thrift library one frame at a time:
+// the length word of a frame is checked against the message size limit before any
+// of its payload is consumed, and a read never goes beyond the end of the current
+// frame, so that the library's buffered reader cannot pull in following messages.
+type frameReader struct {
+	head   [4]byte
+	served int   // bytes of head already handed out
+	remain int64 // payload bytes of the current frame still to come
+	whole  bool  // an unframed client: the stream is passed through as it is
+	inited bool
+}
+
+func (f *frameReader) read(r io.Reader, p []byte) (int, error) {
+	if f.whole {
+		return r.Read(p)
+	}
+	if len(p) == 0 {
+		return 0, nil
+	}
+	if !f.inited || (f.served == len(f.head) && f.remain == 0) {
+		// a new frame begins
+		if _, err := io.ReadFull(r, f.head[:]); err != nil {
+			return 0, err
+		}
+		f.inited, f.served = true, 0
+		size := binary.BigEndian.Uint32(f.head[:])
+		switch {
+		case size&thrift.VERSION_MASK == thrift.VERSION_1,
+			f.head[0] == thrift.COMPACT_PROTOCOL_ID && f.head[1]&thrift.COMPACT_VERSION_MASK == thrift.COMPACT_VERSION:
+			// not a length: the first bytes of an unframed message
+			f.whole = true
+		case uint64(size)+uint64(len(f.head)) > uint64(erpc.GetReadLimit()):
+			return 0, socket.ErrExceedMessageSizeLimit
+		default:
+			f.remain = int64(size)
+		}
+	}
+	if f.served < len(f.head) {
+		n := copy(p, f.head[f.served:])
+		f.served += n
+		return n, nil
+	}
+	if f.whole {
+		return r.Read(p)
+	}
+	if int64(len(p)) > f.remain {
+		p = p[:f.remain]
+	}
+	n, err := r.Read(p)
+	f.remain -= int64(n)
+	return n, err
+}
+
+// Read reads from the connection, frame by frame if the transport is used for reading messages.
+func (b *BaseTTransport) Read(p []byte) (int, error) {
+	if b.frames == nil {
+		return b.ReadWriteCounter.Read(p)
+	}
+	return b.frames.read(b.ReadWriteCounter.ReadCounter, p)
 }
 
 var _ thrift.TTransport = new(BaseTTransport)
